@@ -323,6 +323,21 @@ fn parse_dump_inner(t: &str, cached: bool, limit: usize) -> ParseDump {
     }
 }
 
+/// Number of non-trivia tokens of a text.
+pub fn count_non_trivia(t: &str) -> usize {
+    let (list, _) = tokenize(loc(), t);
+    let Some(list) = list else { return 0 };
+    let mut n = 0;
+    let mut c = list.head();
+    while c.is_valid() {
+        if !<oal_syntax::lexer::Token as Lexeme>::is_trivia(list.kind(c)) {
+            n += 1;
+        }
+        c = list.advance(c);
+    }
+    n
+}
+
 /// Maximum bracket nesting depth of a text (cheap proxy for the cost of the uncached parser).
 pub fn nesting_depth(t: &str) -> usize {
     let mut d = 0usize;
